@@ -183,6 +183,32 @@ def incoh_case(case, res):
                     continue
                 r = [round_half_even(d) for d in exact]
                 one_incoh(res, case, z, zdata, dm, ref, r, N, T0, srx, sub)
+    # Dask-backed twin, channels chunked unequally: same samples, same metadata (the per-sample tracing above is the reference)
+    if nchan >= 3 and N >= 6:
+        import dask.array as da
+        z = factory.make_encoded(cls, N, nchan=nchan, extra=extra, rate_name="1MHz", start_name=case["start"], fc=400 * u.MHz,
+                                 align=case["align"])
+        for chunks in ((1, nchan - 1), (nchan - 2, 1, 1), (2,) + (1,) * (nchan - 2)):
+            if sum(chunks) != nchan:
+                continue
+            lay = ((N,), chunks) + tuple((s_,) for s_ in z.shape[2:])
+            zd = type(z).like(z, da.from_array(np.asarray(z.data), chunks=lay))
+            unit_sweep = dispersion.delay_samples(1, hz(z.min_freq), hz(z.center_freq), hz(z.sample_rate)) - \
+                dispersion.delay_samples(1, hz(z.max_freq), hz(z.center_freq), hz(z.sample_rate))
+            for sweep in (2.3, -3.6):
+                dm = pb.DM(float(F(sweep) / unit_sweep))
+                try:
+                    a, b_ = pb.incoherent_dedispersion(z, dm), pb.incoherent_dedispersion(zd, dm)
+                    bv = np.asarray(b_.data.compute())
+                except Exception as e:
+                    res.violation("incoherent|dask raised", f"chunks {chunks}: {type(e).__name__}: {e}", case, {"chunks": list(chunks)})
+                    continue
+                res.transitions += 2
+                if bv.shape != a.shape or not np.array_equal(bv, np.asarray(a.data)) or \
+                        (a.start_time is not None and T(a.start_time) != T(b_.start_time)):
+                    res.violation("incoherent|dask differs", f"Dask-backed input with channel chunks {chunks} gives different samples / "
+                                  f"start than the NumPy-backed input", case, {"chunks": list(chunks), "sweep": sweep})
+            res.hits["dask-backed input with unequal channel chunks"] += 1
     res.sample({"cls": cls, "nchan": nchan, "align": case["align"], "N": N, "start": case["start"],
                 "example": "sweep 2.3 samples, ref above band"}, 1)
 
@@ -284,7 +310,7 @@ def main(argv=None):
         required_hits=["delay law triples", "infinite reference frequency", "DM in a non-default unit", "negative DM", "every returned sample traced",
                        "start_time moved", "no start time (relative alignment only)",
                        "channels realigned by different delays", "delays of both signs (reference inside band)",
-                       "all delays one sign (reference outside band)", "no valid instant in span: raise/empty accepted"],
+                       "all delays one sign (reference outside band)", "no valid instant in span: raise/empty accepted", "dask-backed input with unequal channel chunks"],
         assumptions=["K = 1/2.41e-4 s MHz^2 cm^3/pc exactly as stated; float evaluation budget 16 ulp of the larger term",
                      "completeness is weak by design: any sound window is accepted (the statement only forbids out-of-range sources)",
                      "labels whose exact delay is within 1e-9 of a half-integer are unconstrained"],
